@@ -231,8 +231,12 @@ def rule_window_tiling(ctx: Ctx) -> None:
               "Bar(begin, ...), BarEvent(end, bar)", "bar/event timestamps are not the window's begin/end",
               key_text="bar times")
     names = [A.dotted(x) for x in bars[0].args[2:7]]
-    ctx.check(names == ["open", "high", "low", "close", "volume"], "C19.2", "aggregates feed the Bar parameter of the same name",
-              flush, bars[0], "open, high, low, close, volume", f"Bar built from {names}", key_text="aggregate mapping")
+    # the five aggregates are five distinct locals, in Bar's parameter order; each is then checked to be computed the way its parameter
+    # needs (first / max / min / last / sum) -- their names do not matter
+    ctx.check(len(names) == 5 and all(nm and "." not in nm for nm in names) and len(set(names)) == 5, "C19.2",
+              "Bar's open, high, low, close, volume come from five distinct aggregates", flush, bars[0], str(names), f"Bar built from {names}",
+              key_text="aggregate mapping")
+    AGG = dict(zip(["open", "high", "low", "close", "volume"], [nm or "?" for nm in names] + ["?"] * 5))
     # aggregates: open first, high max, low min, close last, volume sum
     def update_table(name: str):
         """(value when the aggregate is still unset (falsy), value once it is set) for the in-loop update of ``name``"""
@@ -264,11 +268,12 @@ def rule_window_tiling(ctx: Ctx) -> None:
             rec = rec.elts[1]
         if isinstance(rec, ast.Tuple) and len(rec.elts) == 3 and all(isinstance(e, ast.Name) for e in rec.elts):
             P, Q = rec.elts[1].id, rec.elts[2].id
-    want = {"open": [(P, "open")], "high": [(P, f"max(high,{P})"), (P, f"max({P},high)")],
-            "low": [(P, f"min(low,{P})"), (P, f"min({P},low)")], "close": [(P, P)],
-            "volume": [("aug", f"volume+={Q}")]}
+    O_, H_, L_, C_, V_ = (AGG[k_] for k_ in ("open", "high", "low", "close", "volume"))
+    want = {"open": [(P, O_)], "high": [(P, f"max({H_},{P})"), (P, f"max({P},{H_})")],
+            "low": [(P, f"min({L_},{P})"), (P, f"min({P},{L_})")], "close": [(P, P)],
+            "volume": [("aug", f"{V_}+={Q}")]}
     for k, accepted in want.items():
-        got = update_table(k)
+        got = update_table(AGG[k])
         ctx.check(got in accepted, "C19.2", f"{k} aggregates the window's trades correctly", flush, flush.node,
                   f"(first trade, later trades) -> {got}", f"{k} is updated as (first trade, later trades) -> {got}, expected {accepted[0]}",
                   key_text=f"aggregate {k}")
